@@ -174,6 +174,25 @@ func init() {
 					sb.WriteString("---\n" + pickS(r, []string{"{}\n", "{} # intentionally empty\n", "# head of the empty one\n{}\n"}))
 				}
 			}
+			if nd >= 1 && sb.Len() > 0 && r.Intn(5) == 0 {
+				// a `kind: List` / `ResourceList` wrapper beside other documents — first, in the middle or last — is a document
+				// like any other (only a stream that consists of the wrapper alone is unwrapped)
+				wk := pickS(r, []string{"List", "ResourceList", "ConfigMapList"})
+				wrapper := "apiVersion: v1\nkind: " + wk + "\nitems:\n- apiVersion: v1\n  kind: ConfigMap\n  metadata:\n    name: in-list-a\n- apiVersion: v1\n  kind: ConfigMap\n  metadata:\n    name: in-list-b\n"
+				if wk == "ResourceList" {
+					wrapper = "apiVersion: config.kubernetes.io/v1\nkind: ResourceList\nitems:\n- apiVersion: v1\n  kind: ConfigMap\n  metadata:\n    name: in-list-a\n"
+				}
+				rest := sb.String()
+				sb.Reset()
+				switch r.Intn(3) {
+				case 0:
+					sb.WriteString(wrapper + "---\n" + rest)
+				case 1:
+					sb.WriteString(rest + "---\n" + wrapper + "---\napiVersion: v1\nkind: ConfigMap\nmetadata:\n  name: after-list\n")
+				default:
+					sb.WriteString(rest + "---\n" + wrapper)
+				}
+			}
 			if r.Intn(4) == 0 {
 				// the last document ends in a block scalar, and the stream may lack its final line break
 				if nd > 0 {
